@@ -477,6 +477,37 @@ def _poses(ctx, prog):
         ok = ok and 'slerp' in pose and len(pose_params) == 2 and set(pose_params) <= used
     ctx.check(ok, 'R12.5', 'interpolated', ai.where(pushes[0][0]) if pushes else ai.where(0), ai.path,
               'intermediate poses must be flagged LIN_INTERP and interpolate between start and end', found=found)
+    if ok and len(pushes) == 1:
+        # one fraction i/N for translation and rotation, i running over 1..N: every division inside the interpolated pose
+        # divides by the same step count, and that count bounds the loop
+        def uncast(t):
+            t = strip(t)
+            while isinstance(t, tuple) and t[0] == 'cast':
+                t = strip(t[1])
+            return t
+        dens = set()
+        idxs = set()
+
+        def visit(x):
+            if x[0] == 'bin' and x[1] == 'Div':
+                dens.add(uncast(x[3]))
+            if x[0] == 'call' and cname(x[1]).split('::')[-1] == 'div':
+                dens.add(uncast(x[3]))
+        mir.walk(it[2], visit)
+        # divisions inside the step count itself (distance / check_step) do not count: drop denominators that occur inside another one
+        outer = {d for d in dens if not any(d != e and mir.contains(e, lambda y, d=d: y == d) for e in dens)}
+        loop_vars = [x for x in mir.subterms(it[2], lambda y: y[0] == 'fld' and y[2] == '0') if util.loop_source(x) is not None]
+        rng_ok = False
+        n_term = None
+        if len(outer) == 1 and loop_vars:
+            n_term = next(iter(outer))
+            r = util.range_of(util.loop_source(loop_vars[0]))
+            rng_ok = r is not None and util.const_val(r[0]) == 1 and uncast(r[1]) == n_term and r[2] in ([], ['into_iter']) and \
+                all(util.loop_source(v) == util.loop_source(loop_vars[0]) for v in loop_vars)
+        ctx.check(len(outer) == 1 and rng_ok, 'R12.5', 'interpolated/fraction', ai.where(pushes[0][0]), ai.path,
+                  'translation and rotation of an intermediate pose must advance by the same fraction i/N with i in 1..N '
+                  '(otherwise the waypoints leave the straight segment or overshoot its end)',
+                  found='%d distinct step counts: %s' % (len(outer), [show(d, maxdepth=3) for d in outer]), detail='one step count N; i in 1..N')
     # interpolate(): flags LIN_INTERP, same p for lerp and slerp
     ip = _interp_role(prog)
     if ip:
